@@ -4,6 +4,7 @@ package main
 // reproduction attempt on the real code.
 
 import (
+	"time"
 	"fmt"
 	"go/types"
 	"os"
@@ -33,7 +34,11 @@ func (p *Prog) writeReplay(replayDir, id string, o *Obligation, qdir string) str
 		os.WriteFile(qpath, []byte(q), 0o644)
 		rec["query_file"] = qpath
 	}
-	if o.Verdict == "sat" && o.ex != nil {
+	// replaying is bounded: at most 90 seconds per counterexample and four minutes per check run
+	if o.Verdict == "sat" && o.ex != nil && time.Since(p.replayStart) < 4*time.Minute || o.Verdict == "sat" && o.ex != nil && p.replayStart.IsZero() {
+		if p.replayStart.IsZero() {
+			p.replayStart = time.Now()
+		}
 		if rp := p.tryReplay(o, replayDir); rp != nil {
 			for k, v := range rp {
 				rec[k] = v
@@ -93,7 +98,7 @@ func (p *Prog) tryReplay(o *Obligation, replayDir string) map[string]interface{}
 	}
 	asserts := append([]*Term{}, o.Facts[:o.NFacts]...)
 	asserts = append(asserts, Not(o.Goal))
-	pb := &prober{p: p, asserts: asserts, known: map[int]string{}, dir: scratch}
+	pb := &prober{p: p, asserts: asserts, known: map[int]string{}, dir: scratch, deadline: time.Now().Add(90 * time.Second)}
 	// prefer a witness in the first iteration of every loop (reachable from the inputs)
 	if len(ex.firstIter) > 0 {
 		pb.preferFirst(ex.firstIter)
